@@ -29,8 +29,8 @@ build_variant() { # $1 = variant
     dedupe) out=$BINDIR/verifctl-dedupe; flags=(-tags $TAGS,dedupelabels) ;;
     asan)   out=$BINDIR/verifctl-asan;   flags=(-asan -tags $TAGS) ;;
     promtool)
-      ( cd /repo && GOFLAGS= GOWORK=off flock "$VERIF_ROOT/.build.lock" go build -mod=mod -o "$VERIF_ROOT/bin/promtool" ./cmd/promtool ) >bin/build-promtool.log 2>&1 \
-        || { echo "BUILD-FAILED variant=promtool (see bin/build-promtool.log)"; tail -20 bin/build-promtool.log; return 1; }
+      ( cd /repo && GOFLAGS= GOWORK=off flock "$VERIF_ROOT/.build.lock" go build -mod=mod -o "$VERIF_ROOT/$BINDIR/promtool" ./cmd/promtool ) >"$BINDIR/build-promtool.log" 2>&1 \
+        || { echo "BUILD-FAILED variant=promtool (see $BINDIR/build-promtool.log)"; tail -20 "$BINDIR/build-promtool.log"; return 1; }
       return 0 ;;
     *) echo "unknown variant $1"; return 1 ;;
   esac
